@@ -223,9 +223,78 @@ func c24body(c c24cfg) func(x *vsched.Exec) {
 	}
 }
 
+// ---- second family: the callers' side of "gets back every connection exactly once". A dedicated client gives its
+// connection back through conn.Store; two threads release (or close) the same dedicated client at the same time.
+type c24conn struct {
+	conn
+	p      *pool
+	stores map[wire]int
+}
+
+func (c *c24conn) Store(w wire) {
+	vsched.Point("conn.store", nil)
+	c.stores[w]++
+	c.p.Store(w)
+}
+func (c *c24conn) Acquire(ctx context.Context) wire { return c.p.Acquire(ctx) }
+
+type c24rwire struct{ c24wire }
+
+func (w *c24rwire) Close() {
+	w.c24wire.Close()
+	w.err = ErrClosing // a closed connection reports an error (as the real pipe does), so that the pool discards it
+}
+
+func c24releaseBody(kind string, ops [2]string) func(x *vsched.Exec) {
+	return func(x *vsched.Exec) {
+		st := &c24state{x: x, cap: 2, holder: map[int]string{}}
+		p := newPool(2, deadFn(), 0, 0, func(ctx context.Context) wire {
+			st.made++
+			return &c24rwire{c24wire{id: st.made, st: st}}
+		})
+		fc := &c24conn{p: p, stores: map[wire]int{}}
+		w := p.Acquire(context.Background())
+		var release, closeFn func()
+		switch kind {
+		case "cluster":
+			dc := &dedicatedClusterClient{conn: fc, wire: w}
+			release, closeFn = dc.release, dc.Close
+		case "single":
+			ds := &dedicatedSingleClient{conn: fc, wire: w}
+			release, closeFn = ds.release, ds.Close
+		}
+		for i, op := range ops {
+			f := release
+			if op == "close" {
+				f = closeFn
+			}
+			vsched.GoNamed(fmt.Sprintf("%s%d", op, i), f)
+		}
+		if x.Run() != vsched.Quiescent {
+			return
+		}
+		x.Outcome = fmt.Sprintf("stores=%d idle=%d size=%d", fc.stores[w], len(p.list), p.size)
+		if fc.stores[w] != 1 {
+			x.Fail("a dedicated client gave its connection back a number of times other than once", "%s %v: Store(wire) ran %d times; idle list %d entries, pool size %d", kind, ops, fc.stores[w], len(p.list), p.size)
+			return
+		}
+		seen := map[wire]bool{}
+		for _, v := range p.list {
+			if seen[v] {
+				x.Fail("one connection is twice in the idle list (it would be handed to two holders)", "%s %v: idle list %d entries, pool size %d", kind, ops, len(p.list), p.size)
+				return
+			}
+			seen[v] = true
+		}
+		if len(p.list) > p.size || p.size < 0 {
+			x.Fail("pool accounting broken after a concurrent release", "%s %v: idle list %d entries, pool size %d", kind, ops, len(p.list), p.size)
+		}
+	}
+}
+
 func TestVerif_C24(t *testing.T) {
 	vrun.Main(t, "C24", func(r *vrun.Run) {
-		r.Rule = "all interleavings within the preemption bound of 2-4 threads acquiring/storing on a real pool (cap 1-2) with fake connections, cancellers, deadline timers (virtual clock), Close and the idle-cleanup timer; non-trivial = schedule in which a thread blocked"
+		r.Rule = "all interleavings within the preemption bound of 2-4 threads acquiring/storing on a real pool (cap 1-2) with fake connections, cancellers, deadline timers (virtual clock), Close and the idle-cleanup timer; plus two threads releasing / closing one dedicated client (cluster and single flavour, built white-box over a real pool) at the same time: its connection is stored exactly once; non-trivial = schedule in which a thread blocked"
 		st, fv := "store", "forever"
 		cfgs := []c24cfg{
 			{name: "cap1/3bg", cap: 1, acq: []c24acq{{"bg", st, false}, {"bg", st, false}, {"bg", st, false}}},
@@ -242,6 +311,11 @@ func TestVerif_C24(t *testing.T) {
 		P := vrun.Pick(r, 2, 3)
 		for ci, c := range cfgs {
 			vexp.Run(r, vexp.Prog{Name: c.name, Budget: vsched.Budget{MaxPreempt: P, MaxDev: c.dev}, Opts: vsched.Options{Horizon: 3000, EarlyTimers: c.early}, Body: c24body(c), Seconds: r.Remaining() / float64(len(cfgs)-ci)})
+		}
+		for _, kind := range []string{"cluster", "single"} {
+			for _, ops := range [][2]string{{"release", "release"}, {"release", "close"}, {"close", "close"}} {
+				vexp.Run(r, vexp.Prog{Name: fmt.Sprintf("dedicated-%s/%s|%s", kind, ops[0], ops[1]), Budget: vsched.Budget{MaxPreempt: P}, Opts: vsched.Options{Horizon: 3000}, Body: c24releaseBody(kind, ops), Seconds: 10})
+			}
 		}
 		r.Assume("connections are fakes implementing StopTimer/ResetTimer/Error/Close; the callers' side (mux.blocking, DoStream, dedicated release) is checked over the wire in C25/C29")
 	})
